@@ -80,7 +80,10 @@ def essence(sobs):
             if d is not None:
                 d = _LSDATE.sub("D", _TIME.sub("T;", d.decode("latin-1")))
                 d = hashlib.sha256("\n".join(sorted(d.splitlines())).encode("latin-1")).hexdigest()[:12] if op[1].split()[0] in ("MLSD", "LIST") else hashlib.sha256(d.encode("latin-1")).hexdigest()[:12]
-            out.append((op[1].split()[0], r.get("pre"), r.get("mark"), r.get("final"), d, r.get("how")))
+            how = r.get("how")
+            if (r.get("final") or "")[:1] != "2":
+                how = None  # whether the peer's last write saw the reset of a failed transfer is a matter of timing
+            out.append((op[1].split()[0], r.get("pre"), r.get("mark"), r.get("final"), d, how))
         elif "code" in rec:
             out.append((op[0], rec["code"]))
         else:
